@@ -4,7 +4,8 @@ Specification: spec/P2Hex.tla
   * public definitions of Motorola S (S0/S1/S2/S3/S5/S7/S8/S9), Intel HEX 8/16/32 (types 00-05, segment/linear
     extension, EOF variants -i 0..2), MOS Technology (per-line 16-bit sum, ;00 + record count), Tektronix (both
     hex-digit checksums), Atmel generic, C array as TLA+ predicates and decoders: LineValid, Structure, Decode;
-  * Selected(case): what must come out (-f, -segment, -r incl. "$" ends, -a, -R, file offset, -m byte lanes);
+  * Selected(case): what must come out (-f, -segment, -r incl. "$" ends, -a, -R, -m byte lanes, SEVERAL SOURCE
+    FILES per call, each with or without its own "name(offset)" suffix: DeclOfs / RStart);
   * Verdict(case, lines): every line valid, terminator / count / entry fields right, Decode(lines) = Selected;
   * operational model of p2hex.c (GroupOf/Prologue/LineStep/Epilogue/Finish, Emit) with NAMED deviations of the
     pinned code (PinnedDevs); Emit(c, {}) is the behaviour after the proposed repairs.
@@ -23,10 +24,27 @@ Specification: spec/P2Hex.tla
     also one before / after) a 64 KiB, 1 MiB, 16 MiB boundary - in units and in bytes - followed by records in
     the same, the next and a lower bank.  P2Hex_MCcarryFirstBank / P2Hex_MCcarryRecCnt take one
     re-initialisation out and are EXPECTED to violate InvVerdict (the case space can see this defect class).
+    SOURCE ARGUMENTS (added after a seeded change went unreported: RemoveOffset() in toolutils.c without its
+    `*Offset = 0`, so that a file named WITHOUT "(offset)" was converted with the offset of the argument handled
+    before it - every record and checksum valid, only the decoded addresses wrong; the case space had exactly one
+    source file per call, so no state could travel from one file argument to the next).  A case now names a LIST
+    of source files (c.files: records per file, suffix present?, offset, notation, entry record).  Declarative side:
+    the offset in parentheses belongs to that name only, a name without one is not moved (manual: "This offset is
+    simply appended to a file's name").  Operational side: ProcessGroup()/RemoveOffset() set the static CurrOffset
+    per argument; the list is walked once (-r start-stop) or twice (a "$" end: MeasureFile walk, then ProcessFile
+    walk; CurrOffset survives from the first walk into the second); ProcessFile()'s locals restart per file
+    (AtFile), main()'s statics (S0 written, MaxMoto/MaxIntel, MOS record count, C block number, first entry
+    address) run on.  Case space (FileCases): 2 files (thorough: also 3 files and files of 2 records) in every
+    order x each argument as `name` / `name($0)` / `name(4096)` (thorough: / `name(0x10000)`) x window automatic /
+    one "$" end / explicit x -a.  InvArgOffsets: in both walks every argument is handled with the offset behind ITS
+    name.  P2Hex_MCcarryOffset takes the reset out (deviation "CarryOffset") and is EXPECTED to violate InvVerdict.
 (G) every case of that case space is exported by TLC (P2Hex_Gen), rendered to a code file with the independent
-    writer vlib.codefile.write, converted by the REAL p2hex; plus seeded larger cases (1-4 records up to 600
-    bytes, all option dimensions incl. -f, -segment, file offset, DEFAULT format over 20 CPU families, odd -l,
-    one 65535-byte record for the Intel-16 segment wrap) and the golden corpus' real .p files.
+    writer vlib.codefile.write (one code file per source argument, vlib/p2hexfiles.py), converted by the REAL
+    p2hex; plus seeded larger cases (1-4 records up to 600 bytes, all option dimensions incl. -f, -segment, file
+    offset, DEFAULT format over 20 CPU families, odd -l, one 65535-byte record for the Intel-16 segment wrap),
+    seeded several-file cases (the records of such a case dealt to 2-3 files, arguments without / with "(0)" /
+    with a moving offset in $hex, 0xhex or decimal notation, windows over the moved records with one or two walks)
+    and the golden corpus' real .p files.
 (V) the hex text is only tokenised (vlib/p2hexio.py: hex digit pairs -> integers; C text additionally parsed by
     `gcc -fsyntax-only` as an independent syntax oracle) and handed to TLC (P2Hex_Trace), which evaluates
     Verdict, the failure expectation and the attribution to named deviations.  Python reports what TLC decided.
@@ -36,8 +54,10 @@ EOF/03/05, MOS record count, C len), Decode = Selected whenever the format can c
 Diagnostics only (SPEC-DRIFT): exact line splitting vs. the operational model, -l odd rounded UP (manual: down),
 C `_end` define for granularity > 1, missing Tektronix termination block.
 NOT covered: TI-DSK and Mico8 are modelled structurally only (no public checksum definition offline; they are not in
-the property's format list); addresses >= 2^30 (TLC integers); several source files per call; -d, -k; big-endian
-hosts; stderr warnings; empty (zero-length) records; mixed granularity / mixed default formats in one call;
+the property's format list); addresses >= 2^30 (TLC integers); more than 3 source files per call, wildcards in a
+source name (one argument, several files, directory order), an "(offset)" behind the TARGET name, several files with
+DIFFERENT entry records and no -e (manual silent: not definite); -d, -k; big-endian hosts; stderr warnings; empty
+(zero-length) records; mixed granularity / mixed default formats in one call;
 -m >= 2 with Intel-16/32 and -m with non-Intel formats (manual: -m is for the Intel formats of the PICs).
 
 Findings on the pinned tree d9f49b6 (known_findings/C06.json, proposed_fixes/C06-*.diff + .md), each reproduced with
@@ -64,6 +84,9 @@ Binding shown (./check C06 --selftest; selftest/c06_mutants.py):
      told apart from the known MOS findings), window end -1 (7475), Tek count +1 (649), `FilterOK(InpHeader)` as in
      p2bin (57 of 1200 seeded cases; needs -f, which the TLC case space does not contain), Intel EOF entry address
      dropped (687), C `_len` +1 (1135), S9 entry address dropped (1109), file offset not added (60): all VIOLATION.
+     toolutils.c RemoveOffset() without `*Offset = 0` (m20_offset_carry; passes ctest 201/201, the tests never use
+     file offsets): NOT reported before the source-argument dimension existed, 362 violations now (`x1.p(4096)
+     x2.p` with any window, `x1.p x2.p(4096)` with an automatic window end).
      Intel-16 segment rounded to 256 instead of 16 bytes: output stays valid and decodes right, correctly NOT a
      violation (1 report only where it meets the known granularity-4 defect).
 """
@@ -154,7 +177,7 @@ def files_case(r, idx):
         files[i] = p2hexfiles.file_descr(files[i]["n"], fentry=files[i]["fentry"])
         files[j] = p2hexfiles.file_descr(files[j]["n"], sfx=True, ofs=r.choice(OFFSETS), nota=r.choice(p2hexfiles.NOTATIONS),
                                          fentry=files[j]["fentry"])
-    if r.random() < 0.5:
+    if r.random() < 0.75:
         # a window over the MOVED records (the drawn one was placed over the unmoved ones)
         k, ext = 0, []
         for f in files:
@@ -162,7 +185,7 @@ def files_case(r, idx):
             k += f["n"]
         lo, hi = min(a for a, _ in ext), max(b for _, b in ext)
         o.pop("rstart", None), o.pop("rstop", None)
-        w = r.choice(["auto", "auto", "all", "inner", "lo$", "$hi"])
+        w = r.choice(["auto", "all", "all", "inner", "inner", "lo$", "$hi"])     # one walk / two walks of the file list
         if w in ("all", "inner", "lo$"):
             o["rstart"] = lo if w == "all" else r.randrange(lo, hi + 1)
         if w in ("all", "inner", "$hi"):
@@ -510,7 +533,7 @@ def main(tier):
         g.distinct += x.distinct
         g.wall = max(g.wall, x.wall)
         g.printed += x.printed
-    rep.model("P2Hex_Gen(repaired model: LinesValid, Verdict, DecodeEquiv, Emit, LineLen, Bank, WholeUnits)", g)
+    rep.model("P2Hex_Gen(repaired model: LinesValid, Verdict, DecodeEquiv, Emit, LineLen, Bank, WholeUnits, GroupReset, ArgOffsets)", g)
     with Phase("P2Hex_MC pinned model"):
       if not skip_pinned:
         pm = tlc.must(tlc.run("P2Hex_MC", "P2Hex_MCpinned.cfg", workers=workers, timeout=3000, mem="8g",
@@ -526,8 +549,9 @@ def main(tier):
                  distinct_states=pf.distinct)
     # sensitivity of the case space to per-group state that leaks from one record group into the next
     with Phase("P2Hex_MC carry-over sensitivity"):
-        for cfg in ("P2Hex_MCcarryFirstBank.cfg", "P2Hex_MCcarryRecCnt.cfg", "P2Hex_MCcarryOffset.cfg"):
-            sr = tlc.run("P2Hex_MC", cfg, workers=2, timeout=900, collect=False)
+        cfgs = ("P2Hex_MCcarryFirstBank.cfg", "P2Hex_MCcarryRecCnt.cfg", "P2Hex_MCcarryOffset.cfg")
+        runs = pmap(lambda cfg: tlc.run("P2Hex_MC", cfg, workers=2, timeout=900, collect=False), cfgs, workers=len(cfgs))
+        for cfg, sr in zip(cfgs, runs):           # small models: side by side
             if sr.error:
                 raise CheckError("%s: %s" % (cfg, sr.error))
             if not sr.violation:
@@ -549,7 +573,7 @@ def main(tier):
     cases += [random_case(rng("c06/r%d" % i), i) for i in range(nrand)]
     nbound = 800 if quick else 12000
     cases += [boundary_case(rng("c06/b%d" % i), i) for i in range(nbound)]
-    nfiles = 500 if quick else 8000
+    nfiles = 500 if quick else 5000
     cases += [files_case(rng("c06/f%d" % i), i) for i in range(nfiles)]
     cases += special_cases()
     with Phase("corpus code files"):
